@@ -148,7 +148,7 @@ class USock:
         ev = self.evs.pop(0)
         self.consumed += 1
         if ev[0] == 0:
-            return (ev[1], addr_tuple(ev[2]))
+            return (ev[1][:n], addr_tuple(ev[2]))  # a datagram longer than the buffer is cut, as by the OS
         self.pending = (EV_READ, ev[1])
         raise BlockingIOError
 
@@ -186,7 +186,7 @@ class AUSock(dns._asyncbackend.DatagramSocket):
             ev = self.evs.pop(0)
             self.consumed += 1
             if ev[0] == 0:
-                return (ev[1], addr_tuple(ev[2]))
+                return (ev[1][:size], addr_tuple(ev[2]))
             _async_wait(exp, ev[1])
 
     async def sendto(self, what, destination, timeout):
@@ -414,7 +414,7 @@ SIGNED_VARIANTS = ["good", "good", "good", "badmac", "otherkey", "unknownkey", "
 def tsig_cases(ctx, rng):
     """exchanges whose query is TSIG-signed: udp()/tcp() must hand the keyring and the request MAC
     to the parser, so that the properly signed reply is returned and the others are not"""
-    for i in range(ctx.n(40, 500)):
+    for i in range(ctx.n(40, 300)):
         q = gen_query(rng)
         while (q[1] >> 11) & 15 == 5 or not q[3]:
             q = gen_query(rng)
@@ -755,7 +755,8 @@ def gen_dgram(rng, q, tag):
     mid, flags, qs, opt, kind = mutate_response(rng, q)
     body = rng.choice(BODIES)
     trailing = bytes(rng.randrange(256) for _ in range(rng.choice([0, 0, 0, 0, 1, 3])))
-    wire, pabs = build_dgram(mid, flags, qs, body, rng.choice([0, 1, 1, 2]), opt, trailing, tag)
+    nans = rng.choice([0, 1, 1, 2]) if rng.random() < 0.97 else rng.choice([40, 150])  # now and then a large datagram
+    wire, pabs = build_dgram(mid, flags, qs, body, nans, opt, trailing, tag)
     return wire, pabs, kind + "/" + body
 
 
@@ -851,7 +852,7 @@ def sprinkle(rng, evs, kind, p_block=0.2, p_eof=0.0):
 def cases(ctx):
     rng = ctx.rng
     # ---- is_response
-    for _ in range(ctx.n(300, 6000)):
+    for _ in range(ctx.n(300, 4000)):
         q = gen_query(rng)
         mid, flags, qs, opt, kind = mutate_response(rng, q)
         ctx.count("isresp:" + kind)
@@ -865,14 +866,14 @@ def cases(ctx):
             f = mk_addr(rng.choice([d[3].decode(), d[3].decode().upper()]), rng.choice([53, 53, 54]), 0, rng.choice([0, 0, 0, 3]))
         yield "matchdest", [2, af, f, d, rng.randrange(2)]
     # ---- from_wire option handling (ties the by-construction description of datagrams to from_wire)
-    for i in range(ctx.n(250, 5000)):
+    for i in range(ctx.n(250, 2500)):
         q = gen_query(rng)
         wire, pabs, kind = gen_dgram(rng, q, i)
         ctx.count("fromwire:" + kind)
         for it, rot in ((0, 0), (1, 1), (rng.randrange(2), rng.randrange(2))):
             yield "fromwire", [3, pabs, it, rot, wire]
     # ---- receive_udp / udp: random scripts x all option combinations
-    for s in range(ctx.n(70, 700)):
+    for s in range(ctx.n(70, 450)):
         q, dest, evs, tab, v6 = gen_udp_script(ctx, rng)
         af = socket.AF_INET6 if v6 else socket.AF_INET
         timeout = rng.choice([None, 5, 5, 20, 0])
@@ -913,7 +914,7 @@ def cases(ctx):
                 rng.shuffle(evs2)
                 yield "net_write", [7, data, evs2, rng.choice([None, 4, 12, 30]), 0]
     # ---- framing round trip: send_tcp of several messages, receive_tcp on what reached the wire
-    for i in range(ctx.n(150, 2500)):
+    for i in range(ctx.n(150, 1500)):
         k = rng.choice([1, 1, 2, 3])
         msgs = []
         tab = {}
@@ -936,7 +937,7 @@ def cases(ctx):
         tab = [[[seed, ln], probe_abs(stream_of([seed, ln]))]] if ln <= 65535 else []
         yield "frame_big", [8, 1, [[seed, ln]], wevs, revs, None, 0, 1, tab, 0]
     # ---- tcp(): whole exchange
-    for i in range(ctx.n(200, 3000)):
+    for i in range(ctx.n(200, 2000)):
         q = gen_query(rng)
         _, w, a = small_msg(rng, q)
         tab = {w: a}
@@ -956,12 +957,39 @@ def cases(ctx):
         timeout = rng.choice([None, None, 10, 30, 0])
         qwire = message_of_abs(q).to_wire()
         yield "tcp", [9, q, qwire, timeout, rng.randrange(2), wevs, stream, revs, [[x, y] for x, y in tab.items()], rng.choice([0, 500])]
+    yield from udp_exhaustive(ctx)
     yield from fallback_cases(ctx, rng)
     yield from tsig_cases(ctx, rng)
 
 
+def udp_exhaustive(ctx):
+    """every script of length <= L over a fixed alphabet of events, under all 32 option
+    combinations: genuine reply from the server / from elsewhere, wrong id, malformed, genuine with
+    TC, forged with TC, a short would-block, a would-block that never ends"""
+    q = [0x1234, 0x0100, 0, [[[b"www", b"example", b""], 1, 1]]]
+    qs = q[3]
+    server = mk_addr("10.0.0.53", 53)
+    elsewhere = mk_addr("10.0.0.54", 53)
+    mk = lambda mid, flags, body, tag: build_dgram(mid, flags, qs, body, 1, None, b"", tag)
+    g, ga = mk(0x1234, 0x8180, "ok", 1)
+    w, wa = mk(0x1235, 0x8180, "ok", 2)
+    m, ma = mk(0x1234, 0x8180, "cut_rdata", 3)
+    t, ta = mk(0x1234, 0x8380, "ok", 4)
+    tf, tfa = mk(0x1235, 0x8380, "cut_rdata", 5)
+    tab = [[g, ga], [w, wa], [m, ma], [t, ta], [tf, tfa]]
+    alphabet = [[0, g, server], [0, g, elsewhere], [0, w, server], [0, m, server], [0, t, server], [0, tf, server], [1, 2], [1, None]]
+    qwire = message_of_abs(q).to_wire()
+    L = ctx.n(2, 3)
+    n = 0
+    for ln in range(0, L + 1):
+        for evs in itertools.product(alphabet, repeat=ln):
+            n += 1
+            yield "udp_exh", [5, q, qwire, server, 5, socket.AF_INET, OPTS, [], tab, list(evs), 0]
+    ctx.notes["exhaustive_udp"] = f"all {n} scripts of length <= {L} over an 8-event alphabet x all 32 option combinations x sync/async"
+
+
 def fallback_cases(ctx, rng):
-    for i in range(ctx.n(120, 2000)):
+    for i in range(ctx.n(120, 1000)):
         q, dest, evs, tab, v6 = gen_udp_script(ctx, rng, 5)
         af = socket.AF_INET6 if v6 else socket.AF_INET
         tabd = {w: a for w, a in tab}
@@ -1087,7 +1115,9 @@ def impl1(case):
             ev = evs[sock.consumed - 1]
             if res[2] != addr_tuple(ev[2]):
                 return Err(97, "from_address is not the source of the returned datagram")
-        return [0, sock.consumed, r.wire, abs_of_message(r), int(res[1]), two]
+        if not (0 < sock.consumed <= len(evs)) or evs[sock.consumed - 1][0] != 0 or evs[sock.consumed - 1][1] != r.wire:
+            return Err(94, "returned message is not the datagram that was read last")
+        return [0, sock.consumed, abs_of_message(r), int(res[1]), two]
     if op == 5:
         _, fl, q, qwire, where, timeout, af, o, sevs, tab, evs, now = case
         CLOCK.now = now
@@ -1101,7 +1131,9 @@ def impl1(case):
             return [err, sock.consumed]
         if len(sock.sent) != 1 or sock.sent[0][0] != qwire or sock.sent[0][1] != addr_tuple(where):
             return Err(96, "the query was not sent exactly once to the destination")
-        return [0, sock.consumed, res.wire, abs_of_message(res), int(res.time), 0]
+        if not (0 < sock.consumed <= len(evs)) or evs[sock.consumed - 1][0] != 0 or evs[sock.consumed - 1][1] != res.wire:
+            return Err(94, "returned message is not the datagram that was read last")
+        return [0, sock.consumed, abs_of_message(res), int(res.time), 0]
     if op == 6:
         _, fl, stream, evs, exp, now, counts = case
         CLOCK.now = now
@@ -1408,7 +1440,7 @@ def oracle_udp(kind, case, out, fail):
             fail("Timeout without a deadline")
         return []
     # a message was returned
-    if last is None or last[0] != 0 or last[1] != out[2]:
+    if last is None or last[0] != 0:
         fail("returned message is not the datagram that was read last")
         return []
     c = classify(last)
@@ -1423,6 +1455,6 @@ def oracle_udp(kind, case, out, fail):
         fail("returned a truncated reply although truncation was to be raised")
     elif (final_check or (ie and query is not None)) and not genuine(query, p[1]):
         fail("returned a message that is not a response to the query (QR, id, opcode, question)")
-    elif p[1] != out[3]:
+    elif p[1] != out[2]:
         fail("returned message's header/question differ from the datagram's")
     return []
